@@ -52,15 +52,34 @@ static inline bool wv_quiet(bool is_verify)
 }
 static bool wv_null_input = false; // run the next operations with a NULL input handle (an input that could not be opened)
 // seed: the r_buf string (without the terminating NUL; must not contain 0)
+// what a caller passes as "file size" is only a progress value to the library: every second encryption passes 0
+static unsigned wv_enc_count = 0;
+// the seed text is the CALLER's buffer: when a driver sets this, every encryption is handed the same persistent buffer
+// instead of a private copy (an operation that scribbles on it changes what the next one sees)
+static std::vector<u8_t> *wv_shared_seed = NULL;
 static inline OpResult wv_encrypt(const std::vector<u8_t> &P, std::vector<u8_t> key, int cm, int hm, std::vector<u8_t> seed, int T)
 {
   MemFile in(P), out(std::vector<u8_t>(), "wb+");
   seed.push_back(0);
+  if (wv_shared_seed)
+  {
+    if (wv_shared_seed->empty())
+      *wv_shared_seed = seed;
+    Settings st(cm, hm, wv_quiet(false));
+    OpResult r;
+    {
+      runcrypt rc(in.f, out.f, key.data(), st, T);
+      r.ret = rc.execute_encrypt((++wv_enc_count % 2) ? P.size() : 0, wv_shared_seed->data());
+    }
+    r.out = out.bytes();
+    r.in_after = in.bytes();
+    return r;
+  }
   Settings st(cm, hm, wv_quiet(false));
   OpResult r;
   {
     runcrypt rc(in.f, out.f, key.data(), st, T);
-    r.ret = rc.execute_encrypt(P.size(), seed.data());
+    r.ret = rc.execute_encrypt((++wv_enc_count % 2) ? P.size() : 0, seed.data());
   }
   r.out = out.bytes();
   r.in_after = in.bytes();
